@@ -788,6 +788,14 @@ class Prop(Check):
         "Select.C32_call_stateless",
         "Select.C32_history",
         "Select.C32_reregister",
+        "Select.C32_perm_indep",
+        "Select.C32_perm_indep_call",
+        "Select.C32_perm_indep_history",
+        "Select.C32_perm_dupkeys_false",
+        "Select.C32_visit_repaired",
+        "Select.C32_visit_pinned",
+        "Select.C32_visit_pinned_false",
+        "Select.C32_rrel_string_same_answer",
     ]
     DRIVER = "Drivers/Select.lean"
     QUICK_CASES = 500
@@ -813,7 +821,8 @@ class Prop(Check):
     MODELLED = ("regenerated each run (tie T): order of the lookup keys (Gen.providerOrder from the `attr_refs` list expression, "
                 "ast); hand-modelled (tie X): the for/else lookup loop and the crossref.scope_provider test of "
                 "resolve_one_step (Select.select), register_scope_providers' string conversion (Select.register), RREL per "
-                "assignment (Select.occRrel), the delimiter deduction of RREL.__call__ and the name split of "
+                "assignment: the per-attribute and per-assignment slots visit_assignment fills and the getattr read of "
+                "process_node (Select.visit / refRrel, proved equal to Select.occRrel), the delimiter deduction of RREL.__call__ and the name split of "
                 "find_object_with_path per call (Select.RrelObj.call / callOf), register_scope_providers replacing the "
                 "dictionary in a history of loads (Select.run); not exhibited: what the selected provider then computes (RREL evaluation is "
                 "C11/C12), ModelLoader side effects of registered +m providers on files without references")
@@ -844,6 +853,12 @@ class Prop(Check):
                             if mask >> b & 1:
                                 reg.append([keys[b], {"s": ["pa", "", "^pb", ""][b]} if strings and b % 2 == 0
                                             else {"p": b}])
+                        # precedence is by key, not by insertion order of the dict (C32_perm_indep): the
+                        # enumeration registers the same entries in varying orders
+                        if (mask + strings + listattr) % 3 == 1:
+                            reg.reverse()
+                        elif (mask + strings + listattr) % 3 == 2:
+                            reg = reg[1:] + reg[:1]
                         alt = {"t": None, "ts": None}
                         alt[attr] = grammar_rrel
                         out.append({"kind": "select", "rules": [{"name": "R1", "alts": [alt]}], "reg": reg,
